@@ -70,6 +70,7 @@ fn huge_genomes(rep: &mut Report) {
 fn flips(seed: u64, shard: usize, rounds: usize, rep: &mut Report) {
     if shard == 0 {
         huge_genomes(rep);
+        umad_long_parents(rep);
     }
     for r in 0..rounds {
         let mut g = Xo::derive(seed, "C11-flip", (shard * 1_000_003 + r) as u64);
@@ -307,6 +308,30 @@ fn judge_umad_child(child: &[UGene], len: usize, handed_out: u32, first_serial: 
         }
     }
     rep.take()
+}
+
+/// Long parents at the extreme rates: a million genes with deletion rate 1 (result empty),
+/// deletion rate 0.999999 (long runs in which nothing survives), addition 1 / deletion 1,
+/// addition 1 / deletion 0 (exactly one new gene after every parent gene) and a middle setting.
+/// UMAD has to answer for every genome size; nothing in it may be sized, or recurse, with the
+/// length of a run of deleted genes.
+fn umad_long_parents(rep: &mut Report) {
+    let len = 1_000_000usize;
+    for (add, del) in [(0.0f64, 1.0f64), (1.0, 1.0), (0.0, 0.999_999), (0.3, 0.999_999), (1.0, 0.0), (0.3, 0.3)] {
+        let cfg = UmadCfg { add, del, empty: Some(add), ctor: 0 };
+        let cfg_text = format!("{cfg:?} on a parent of {len} genes");
+        vh_core::shard::set_context(format!("C11 {cfg_text}"));
+        let gen = SerialGen { next: Cell::new(5) };
+        let parent: Vector<UGene> = (0..len as u32).map(UGene::Parent).collect();
+        let out = catch(|| Umad::new(add, del, &gen).mutate(parent, &mut TraceRng::new(len as u64 ^ del.to_bits())));
+        rep.eval();
+        rep.count("Umad/Vector:long-parent");
+        rep.distinct(fnv_str(&cfg_text));
+        match out {
+            Ok(Ok(child)) => check_umad_child(&child.genes, len, gen.next.get() - 5, 5, &cfg, &cfg_text, "Vector", rep),
+            other => rep.violation("C11/Umad/Vector/failed", || json!({"config": cfg_text, "observed": format!("{other:?}").chars().take(300).collect::<String>()})),
+        }
+    }
 }
 
 fn umad_round(g: &mut Xo, rep: &mut Report) {
